@@ -39,7 +39,7 @@ PROPS = {
         assumptions=[],
     ),
     "C04": dict(
-        units=["qc"],
+        units=["qc", "leader"],
         level="proof",
         level_text="Deductive proof (Verus) over the real text of View::verify, ReplicaCommit::verify, ReplicaTimeout::verify, "
                    "CommitQC::{new,add,verify}, TimeoutQC::{new,add,verify,weight}, Signers::{new,len,is_empty,weight,&,&=,|=}, "
@@ -135,7 +135,7 @@ PROPS = {
         assumptions=[],
     ),
     "C01": dict(
-        units=["replica", "implied", "blockstore"],
+        units=["replica", "implied", "blockstore", "leader"],
         count_all=True,      # every obligation of these units is a premise of the agreement argument
         level="other",
         explanation="PREMISES ONLY. What is machine-checked (Verus, on the real handler text, for all inputs): every per-replica rule the "
@@ -152,7 +152,7 @@ PROPS = {
         level_text="other: machine-checked premises + composition lemmas of the agreement argument; the global history induction (H-ind) is a "
                    "stated, unverified hypothesis. A contract can say what one call does; agreement is a whole-history property, so this is the "
                    "honest level for this technique.",
-        level_note="H-ind (history induction) unverified; A3 aggregation axioms (an aggregate built by adding individually valid signatures of "
+        level_note="Schedule::new (unit leader) establishes the invariant all threshold rules rely on (total_weight = sum of ALL validators' weights). H-ind (history induction) unverified; A3 aggregation axioms (an aggregate built by adding individually valid signatures of "
                    "distinct members verifies over exactly those members: built_*/tbuilt_*); BLS, keccak, std containers (nested BTreeMaps as finite maps), "
                    "EngineInterface durability trusted; A7 (certified numbers/views < 2^64-1).",
         technique="contract-based deductive verification of the premises (Verus) + ghost composition lemmas; global induction not mechanised",
